@@ -474,7 +474,8 @@ class Minimizer(object):
         if feats is None:
             return False
         sal = salient(feats)
-        return any(sig == sal for c, sig in known_signatures() if c == self.cat or (c in FAMILY and self.cat in FAMILY))
+        return any(sig == sal for c, sig, is_open in known_signatures()
+                   if is_open and (c == self.cat or (c in FAMILY and self.cat in FAMILY)))
 
     def run(self, prog):
         uses = {i for i, u in enumerate(prog["units"]) if u["k"] == "use"}
@@ -518,9 +519,12 @@ _known = None
 
 
 def known_signatures():
-    """(category, frozenset(features)) of every listed finding (open or fixed), most specific first.  A witness
-    whose feature set contains a listed signature of the same category is reported under that finding's key; any
-    other witness is reported under its full feature set (a new key)."""
+    """(category, frozenset(features), is_open) of every listed finding; open findings first, then most specific
+    first.  A witness whose feature set contains a listed signature is reported under that finding's key; any other
+    witness is reported under its full feature set (a new key).  Open findings take precedence over fixed ones: a
+    witness that exercises the trigger of a still-open defect (say function-like self-reference) is explained by
+    that defect even if it also contains the features of a repaired one; a fixed key is only re-hit by a witness
+    that no open finding explains (the stored witnesses of fixed findings are replayed on every run regardless)."""
     global _known
     if _known is None:
         _known = []
@@ -529,8 +533,8 @@ def known_signatures():
                 continue
             parts = f["key"].split(":")
             cat, sig = ":".join(parts[1:-1]), parts[-1]
-            _known.append((cat, frozenset(sig.split("+"))))
-        _known.sort(key=lambda cs: (-len(cs[1]), sorted(cs[1])))
+            _known.append((cat, frozenset(sig.split("+")), f.get("status") == "open"))
+        _known.sort(key=lambda cs: (not cs[2], -len(cs[1]), sorted(cs[1])))
     return _known
 
 
@@ -541,13 +545,14 @@ FAMILY = ("token-mismatch", "runaway-expansion", "died-asan-stack-overflow")
 
 def make_key(cat, feats):
     sal = salient(feats)
-    for c, sig in known_signatures():
-        if c == cat and sig <= sal:
-            return cat + ":" + "+".join(sorted(sig))
-    if cat in FAMILY:
-        for c, sig in known_signatures():
-            if c in FAMILY and sig <= sal:
-                return c + ":" + "+".join(sorted(sig))
+    for want_open in (True, False):
+        for c, sig, is_open in known_signatures():
+            if is_open == want_open and c == cat and sig <= sal:
+                return cat + ":" + "+".join(sorted(sig))
+        if cat in FAMILY:
+            for c, sig, is_open in known_signatures():
+                if is_open == want_open and c in FAMILY and sig <= sal:
+                    return c + ":" + "+".join(sorted(sig))
     return cat + ":" + "+".join(sorted(sal))
 
 
